@@ -12,7 +12,10 @@ import (
 // RichFeed builds one realtime message that exercises every map-built collection and every
 // extension code path: NYCT trips and tracks, >= 3 id-bearing vehicles, elevator alert groups,
 // Mercury alerts with priorities and metadata, alerts with several route-only trip descriptors.
-func RichFeed(t *sim.T) *gtfsrt.FeedMessage {
+func RichFeed(t *sim.T) *gtfsrt.FeedMessage { return RichFeedMin(t, 0) }
+
+// RichFeedMin is RichFeed with at least minVehicles id-bearing vehicle entities.
+func RichFeedMin(t *sim.T, minVehicles int) *gtfsrt.FeedMessage {
 	cfg := DrawWorldCfg(t)
 	cfg.Nyct = !t.Chance(1, 5)
 	cfg.AlertRate = 0
@@ -26,6 +29,9 @@ func RichFeed(t *sim.T) *gtfsrt.FeedMessage {
 	}
 	// id-bearing vehicles (not tied to NYCT descriptors)
 	nv := t.Range(0, 6)
+	if nv < minVehicles {
+		nv = minVehicles
+	}
 	for i := 0; i < nv; i++ {
 		vp := &gtfsrt.VehiclePosition{
 			Vehicle:   &gtfsrt.VehicleDescriptor{Id: ps(fmt.Sprintf("veh-%d", i))},
